@@ -19,6 +19,12 @@ LOGICAL = ("&&", "||")
 # --------------------------------------------------------------------------
 # tree helpers (nodes are plain dicts)
 
+def same_node(event_node, n):
+    """Does a path event's node denote AST node n?  n may be a node of a helper body grafted into its caller."""
+    return event_node is not None and (event_node["id"] == n["id"] or ("oid" in n and event_node["id"] == n["oid"] and
+                                                                   event_node.get("line") == n.get("line")))
+
+
 def kids(n):
     """All syntactic children of a node, in source order."""
     out = []
@@ -478,6 +484,7 @@ def _clone(n, off, subst, suffix, lidoff):
     for k, v in n.items():
         if k == "id":
             out[k] = v + off
+            out["oid"] = n.get("oid", v)      # id of the node in the helper's own tree (path events refer to that one)
         elif k in ("kids", "decls"):
             out[k] = [_clone(x, off, subst, suffix, lidoff) for x in v]
         elif k in ("init", "cond", "inc", "then", "else", "body", "inl") and isinstance(v, dict):
